@@ -49,7 +49,10 @@ GConfigs ==
     \cup UNION {{[task |-> "gen", d |-> d, m |-> m, d2 |-> d2, seed |-> seed, basis |-> b, rev |-> rv, rew |-> rw] :
                     m \in {6, 9}, d2 \in {d, d + 1}, seed \in 1..2, rv \in BOOLEAN, rw \in BOOLEAN,
                     b \in {<<<<Const(0), Id(0), Mono(0, 2, <<1, 1>>)>>, <<Const(0), Id(d - 1)>>>>,
-                           <<<<Id(0), SinF(0, <<1, 1>>)>>, <<Const(0), Id(d - 1), Mono(d - 1, 2, <<1, 1>>)>>>>}} : d \in 1..2}
+                           <<<<Id(0), SinF(0, <<1, 1>>)>>, <<Const(0), Id(d - 1), Mono(d - 1, 2, <<1, 1>>)>>>>,
+                           \* three and four modes: the interior ("middle") contraction steps of the reduced matrix
+                           <<<<Const(0), Id(0)>>, <<Const(0), Id(d - 1)>>, <<Const(0), Mono(0, 2, <<1, 1>>)>>>>,
+                           <<<<Const(0), Id(0)>>, <<Id(d - 1), Mono(d - 1, 2, <<1, 1>>)>>, <<Const(0), SinF(0, <<1, 1>>)>>, <<Const(0), Id(d - 1)>>>>}} : d \in 1..2}
 
 GIx(c) == Len(c.task) + (IF "d" \in DOMAIN c THEN c.d * 3 + c.seed * 7 + c.d2 ELSE c.theta[1] + c.sig + c.extra)
           + (IF "basis" \in DOMAIN c THEN Len(c.basis) * 5 + Len(c.basis[1]) ELSE 0)
